@@ -61,8 +61,8 @@ CLAIMED["C07"] = dict(
     technique="Coq proof (master step-machine invariant) + message-level correspondence + exhaustive injection-point sweep with Coq oracle",
     ref="5/C07")
 CLAIMED["C09"] = dict(
-    text="The flat wiring equivalent to a nesting is a Coq function (flatten). Proved for every configuration: its devices are exactly those the nested model visits, in order; a configuration without systems is its own flattening; in the initial tick the nested model updates exactly the flattened device list (C09_flat_devices, C09_flat_identity, C09_initial_transparent). Proved for whole runs (C09_inline_transparent): for every configuration made of top-level devices and one system simulation holding devices (any number of devices, any single-source wiring through external/exposed ports; the scope is decided by the Coq function shape_of), every device family that reports each output port at most once and reads its inputs as a dictionary (the harness's table devices are proved to be one, C09_inline_transparent_table), every initial time, horizon and number of master ticks, the nested run and the run with the system replaced by its contents perform the same device updates in the same order at the same simulation times with equal inputs, callbacks of inner and outer devices included - a lockstep simulation between the two masters whose invariant relates the system's entry in the top-level wakeup table to the earliest inner wakeup; the same holds for the real-time master model at speed 1 (C09_inline_transparent_master: Model/SimTime.v is proved equal to Model/Sim.v's master there for every configuration, nested or not). Beyond that scope (depth > 1, sibling systems, pass-through ports, interrupts, pacing) transparency is decided per PAIR of runs of the real schedulers: every generated nesting (depth <= 3, siblings, pass-through ports, systems without inputs/outputs, callbacks, interrupts) is run nested and flat, Coq checks that the harness's flat configuration IS the flattening (73), that inside the theorem's scope the inlined configuration is that flattening too (74), and that every device observes the same sequence of times and inputs (71), besides both runs agreeing with Model/Sim.v and Model/SimTime.v.",
-    note=TB + "the virtual-time event loop. PARTIAL: the whole-run theorem covers one system simulation of devices at the top level, without interrupts, at speed 1 where real time is involved; deeper nestings, sibling systems, wires straight from an external to an exposed port and interrupts are pairwise-tested.",
+    text="The flat wiring equivalent to a nesting is a Coq function (flatten). Proved for every configuration: its devices are exactly those the nested model visits, in order; a configuration without systems is its own flattening; in the initial tick the nested model updates exactly the flattened device list (C09_flat_devices, C09_flat_identity, C09_initial_transparent). Proved for whole runs (C09_inline_transparent): for every configuration made of top-level devices and one system simulation holding devices (any number of devices, any single-source wiring through external/exposed ports; the scope is decided by the Coq function shape_of), every device family that reports each output port at most once and reads its inputs as a dictionary (the harness's table devices are proved to be one, C09_inline_transparent_table), every initial time, horizon and number of master ticks, the nested run and the run with the system replaced by its contents perform the same device updates in the same order at the same simulation times with equal inputs, callbacks of inner and outer devices included - a lockstep simulation between the two masters whose invariant relates the system's entry in the top-level wakeup table to the earliest inner wakeup; the same holds for the real-time master model at speed 1 (C09_inline_transparent_master: Model/SimTime.v is proved equal to Model/Sim.v's master there for every configuration, nested or not). With interrupts of the devices outside the system at any points between ticks the same holds on scripts (C09_inline_transparent_script), and composed with C08 the nested model computes what EVERY schedule - any answer order, tick after tick - of the flat inlined simulation gives every device (C09_nested_is_every_flat_schedule). Beyond that scope (depth > 1, sibling systems, pass-through ports, interrupts, pacing) transparency is decided per PAIR of runs of the real schedulers: every generated nesting (depth <= 3, siblings, pass-through ports, systems without inputs/outputs, callbacks, interrupts) is run nested and flat, Coq checks that the harness's flat configuration IS the flattening (73), that inside the theorem's scope the inlined configuration is that flattening too (74), and that every device observes the same sequence of times and inputs (71), besides both runs agreeing with Model/Sim.v and Model/SimTime.v.",
+    note=TB + "the virtual-time event loop. PARTIAL: the whole-run theorem covers one system simulation of devices at the top level, with interrupts of outer devices only (between ticks), at speed 1 where real time is involved; deeper nestings, sibling systems, wires straight from an external to an exposed port and interrupts are pairwise-tested.",
     technique="Coq proof (flattening; lockstep simulation between nested and inlined runs) + paired whole-simulation runs compared in Coq",
     ref="5/C09")
 CLAIMED["C10"] = dict(
